@@ -511,7 +511,11 @@ Section Stmts.
         ret ((if shared then [NamedExpr tmp v0] else []) ++ stores)
     | SAnnAssign target None => ret []
     | SAnnAssign target (Some value) =>
-        let! v := tr n value in assign_auto n (0 :: p) target v
+        let! v0 := tr n value in
+        let shared := shared_value [target] in
+        let tmp := ol "assign" (path_str p) in
+        let! stores := assign_auto n (0 :: p) target (if shared then Name tmp else v0) in
+        ret ((if shared then [NamedExpr tmp v0] else []) ++ stores)
     | SAugAssign target op value => lower_augassign n p target op value
     | SImport names => lower_import n names
     | SImportFrom m names lv => lower_importfrom n p m names lv
